@@ -73,7 +73,11 @@ impl Command for CommandImpl {
             } else {
                 let start = match parse_number(&context.arguments[1]) {
                     Ok(value) => {
-                        if value > (string_len - 1) {
+                        if value < 0 {
+                            return CommandResult::Error(
+                                "Start index cannot be negative.".to_string(),
+                            );
+                        } else if value > (string_len - 1) {
                             return CommandResult::Error(
                                 "Start index cannot be bigger than total text size.".to_string(),
                             );
@@ -108,9 +112,12 @@ impl Command for CommandImpl {
             let start_index: usize = start.try_into().unwrap();
             let end_index: usize = end.try_into().unwrap();
 
-            let sub_string = &string_value.as_str()[start_index..end_index];
-
-            CommandResult::Continue(Some(sub_string.to_string()))
+            match string_value.as_str().get(start_index..end_index) {
+                Some(sub_string) => CommandResult::Continue(Some(sub_string.to_string())),
+                None => CommandResult::Error(
+                    "Index is not on a character boundary.".to_string(),
+                ),
+            }
         }
     }
 }
